@@ -743,7 +743,7 @@ impl DnsListenerHandler {
                     .await
                     {
                         let cmsg = udp::ControlMessage::new().set_send_from(rm.local_ip());
-                        local_listener
+                        if let Err(e) = local_listener
                             .send_msg(
                                 in_reply_bytes.as_slice(),
                                 &cmsg,
@@ -751,7 +751,9 @@ impl DnsListenerHandler {
                                 Some(&rm.address.unwrap()), /* TODO: Error? */
                             )
                             .await
-                            .expect("Failed to send reply"); // TODO: Better error handling
+                        {
+                            log::warn!("[{:x}] Failed to send reply: {}", msg.in_query.qid, e);
+                        }
                     } else {
                         IN_QUERY_DROPPED.inc();
                         log::warn!("[{:x}] Not Sending Reply: Rate Limit", msg.in_query.qid);
